@@ -71,6 +71,9 @@ where
         Ok(t) => t,
         Err(pn) => return Err(Fail::new(format!("integration panicked: {pn}"), detail(json!(pn)))),
     };
+    if let Some(c) = ind.iter().chain(int.iter()).chain(der.iter()).find(|c| !c.is_finite()) {
+        return Err(Fail::new("integration of finite coefficients through a finite knot returned a non-finite number", detail(json!({"number": fj(*c), "integral": fjs(&int)}))));
+    }
     if ind.len() != n + 1 || int.len() != n + 1 || der.len() != n {
         return Err(Fail::new("integral has the wrong degree", detail(json!({"indefinite": fjs(&ind)}))));
     }
@@ -129,6 +132,9 @@ where
         Ok(t) => t,
         Err(pn) => return Err(Fail::new(format!("integration panicked: {pn}"), detail(json!(pn)))),
     };
+    if let Some(c) = int.iter().find(|c| !c.is_finite()) {
+        return Err(Fail::new("integral(knot) returned a non-finite coefficient", detail(json!({"number": fj(*c), "integral": fjs(&int)}))));
+    }
     // exact integral of p over [a,b]
     let (qa, qb) = (q(a), q(b));
     let mut want = Q::zero();
